@@ -443,6 +443,7 @@ def antiamp_retry_move(r, idx):
     cfg["sf_size"] = r.choice([4000, 8000, 12000])
     cfg["max_datagrams"] = r.choice([1, 2, 10])
     cfg["latency_us"] = 10000
+    cfg["keep_old_addrs"] = True       # the Retry still reaches the client at the address it was sent to
     steps = [{"do": "connect", "n": 1},
              {"do": "run", "us": r.choice([10001, 12000, 19000])},       # the Retry is in flight
              {"do": "migrate", "n": 1, "addr": r.choice([[3, 1, 53840], [1, 1, 50009], [3, 1, 50009], [1, 2, 53840]])}]
